@@ -100,7 +100,8 @@ inline QString str(Tape &t, unsigned flags = TextSafe, uint32_t maxLen = 64)
     QString out;
     for (uint32_t i = 0; i < n; i++)
         appendChar(t, out, flags);
-    auto isBlank = [](QChar c) { return c == u' ' || c == u'\t' || c == u'\n' || c == u'\r'; };
+    // "blank" in the Unicode sense (NBSP, U+2028, U+0085 ... included): XML tooling strips such text nodes
+    auto isBlank = [](QChar c) { return c.isSpace(); };
     if (!(flags & EdgeSpace)) {
         // edges must be non-blank
         if (isBlank(out.front()))
